@@ -305,12 +305,38 @@ class Path:
             if key0 not in done:
                 done.add(key0)
                 tgt = z3.SubString(x, 0, e1)
-                eqs = [fold_fn(fspec, i)(tgt) == const_of(fspec.init[i]) for i in range(len(fspec.sorts))]
+                eqs = [fold_fn(fspec, i)(tgt) == const_of(fspec.init[i], fspec.sorts[i]) for i in range(len(fspec.sorts))]
                 out.append(z3.Implies(e1 <= 0, z3.And(*eqs)))
+        # absorbing-predicate lemmas (spec.py): P(f(x[:e1])) and e1 <= e2 ==> P(f(x[:e2]))
+        from .spec import LEMMAS
+
+        for lem in LEMMAS:
+            items = []
+            seen = set()
+            for fspec, x, e in self.fold_slices:
+                if fspec.name != lem.fold:
+                    continue
+                k = (x.get_id(), e.get_id())
+                if k in seen:
+                    continue
+                seen.add(k)
+                items.append((fspec, x, e))
+            for fspec, x, e1 in items:
+                for _, x2, e2 in items:
+                    if x2.get_id() != x.get_id() or e1.get_id() == e2.get_id():
+                        continue
+                    t1 = x if z3.eq(e1, z3.Length(x)) else z3.SubString(x, 0, e1)
+                    t2 = x if z3.eq(e2, z3.Length(x)) else z3.SubString(x, 0, e2)
+                    p1 = self.ctx.lemma_pred(self, lem, fspec, t1)
+                    p2 = self.ctx.lemma_pred(self, lem, fspec, t2)
+                    out.append(z3.Implies(z3.And(e1 >= 0, e1 <= e2, e2 <= z3.Length(x), p1), p2))
         return out
 
 
-def const_of(v):
+def const_of(v, kind=None):
+    if kind is not None and kind.startswith("seq:"):
+        assert len(v) == 0
+        return z3.Empty(z3.SeqSort(ty.kind_sort(kind[4:])))
     if isinstance(v, bool):
         return z3.BoolVal(v)
     if isinstance(v, int):
@@ -320,12 +346,29 @@ def const_of(v):
     raise OutOfSubset("spec", f"constant {v!r}")
 
 
+def native_const(v, kind):
+    """z3 constant of a native spec value of the given kind."""
+    if kind.startswith("seq:"):
+        ek = kind[4:]
+        if not v:
+            return z3.Empty(z3.SeqSort(ty.kind_sort(ek)))
+        us = [z3.Unit(native_const(x, ek)) for x in v]
+        return us[0] if len(us) == 1 else z3.Concat(*us)
+    if ty.has_record(kind):
+        dt, fields = ty.record(kind)
+        return dt.constructor(0)(*[native_const(x, k) for x, (f, k) in zip(v, fields)])
+    return const_of(v)
+
+
 _SORTS = {"int": z3.IntSort, "str": z3.StringSort, "bool": z3.BoolSort}
 
 
 def fold_fn(fspec: Spec, comp: int):
     k = fspec.sorts[comp]
-    rng = ty.kind_sort(k) if k not in _SORTS else _SORTS[k]()
+    if k.startswith("seq:"):
+        rng = z3.SeqSort(ty.kind_sort(k[4:]))
+    else:
+        rng = ty.kind_sort(k) if k not in _SORTS else _SORTS[k]()
     return z3.Function(f"{fspec.name}__{comp}", z3.StringSort(), rng)
 
 
@@ -401,6 +444,14 @@ class Ctx:
             Obligation(self.contract.name, kind, label, getattr(node, "lineno", 0), assumptions, g, path.pid,
                        must_fail, tuple(self.contract.props), dict(path.inputs), aux))
 
+    def lemma_pred(self, path, lem, fspec, term):
+        ev = Evaluator(self, path, pure=True)
+        env = Env(module=None)
+        env.py_globals = fspec.globals
+        for i, pname in enumerate(fspec.params[:-1]):
+            env.vars[pname] = wrap_kind(fspec.sorts[i], fold_fn(fspec, i)(term))
+        return ev.truth(ev.ev(ast.parse(lem.pred, mode="eval").body, env))
+
     # ------------------------------------------------------------------ fold specs
     def fold_step(self, path: Path, fspec: Spec, st: list, c):
         """Apply the step function symbolically (pure merge evaluation)."""
@@ -427,7 +478,7 @@ class Ctx:
         if is_str_lit(t):
             vals = fspec.run(t.as_string())  # type: ignore[attr-defined]
             for i in range(n):
-                path.add_axiom(fold_fn(fspec, i)(t) == const_of(vals[i]))
+                path.add_axiom(fold_fn(fspec, i)(t) == native_const(vals[i], fspec.sorts[i]))
             return
         args = flatten_concat(t)
         last = args[-1]
